@@ -1107,9 +1107,12 @@ class StateEngine(object):
                 #print()
 
                 # If has_terminated acknowledge the event and don't add the
-                # id to the event_ids list
+                # id to the event_ids list. The event must be acknowledged
+                # whatever the type of its state as it is dropped here, but
+                # only the events of states other than Map and Parallel are
+                # ever recorded in the event_ids list.
+                self.event_dispatcher.acknowledge(id)
                 if state_type != "Parallel" and state_type != "Map":
-                    self.event_dispatcher.acknowledge(id)
                     event_ids[index] = None
 
                 self.check_pending_results(execution_arn)
